@@ -543,3 +543,19 @@ Example C10_soup_reference_total_nonvacuous :
   forallb (noimpb std_env) (lex (bs "a.com, { dir { x } } } { {$V_BR} "%string)) = true /\
   parse_soup std_env [] [] (bs "a.com, { dir { x } } } { {$V_BR} "%string) = PErr ESyntax.
 Proof. split; vm_compute; reflexivity. Qed.
+
+(* Parsing terminates for ALL inputs, with a fuel that is an explicit function of the sizes alone: for
+   every environment, import bound, world (glob answers and file contents) and token list, the fuel
+   world_fuel = tokens + 4 + L * (2^maxi - 1), L = max (tokens, largest glob answer of the world),
+   never yields OutOfFuel or PPanic; with no import allowed it is tokens + 4. *)
+Theorem C10_parse_total_world : forall env maxi globs files toks fuel,
+  (world_fuel maxi files globs (length toks) <= fuel)%nat ->
+  parse_tokens env maxi globs files fuel toks <> PFuel /\ parse_tokens env maxi globs files fuel toks <> PPanic.
+Proof. exact parse_total_world. Qed.
+Print Assumptions C10_parse_total_world.
+
+Example C10_parse_total_world_nonvacuous :
+  world_fuel 0 TotalExample.wfiles TotalExample.wglobs (length TotalExample.main) = (length TotalExample.main + 4)%nat /\
+  parse_tokens [] 3 TotalExample.wglobs TotalExample.wfiles
+    (world_fuel 3 TotalExample.wfiles TotalExample.wglobs (length TotalExample.main)) TotalExample.main = PErr ECycle.
+Proof. split; [apply world_fuel_0|vm_compute; reflexivity]. Qed.
